@@ -80,10 +80,13 @@ Proof.
   apply p_remove_nd. apply D. exact N5.
 Qed.
 
-Lemma cleanup_loop_nd ll total : forall files w idx,
-  nodup_names (wfs w) -> nodup_names (wfs (snd (cleanup_loop w files idx ll total))).
+Lemma cleanup_loop_nd ll total cur : forall files w idx,
+  nodup_names (wfs w) -> nodup_names (wfs (snd (cleanup_loop w files idx ll total cur))).
 Proof.
-  induction files as [|n r IH]; intros w idx N; [exact N|]. rewrite cleanup_loop_cons.
+  induction files as [|n r IH]; intros w idx N; [exact N|].
+  destruct (match cur with Some p => beq p n | None => false end) eqn:B;
+    [cbn [cleanup_loop]; rewrite B; apply IH; exact N|].
+  rewrite (cleanup_loop_cur_cons w n r idx ll total cur B).
   destruct (act ll total idx n).
   - apply IH. exact N.
   - pose proof (compress_file_nd w n N) as N1. destruct (compress_file w n) as [ok w1]. cbn [snd] in N1.
@@ -118,13 +121,13 @@ Lemma fixed_of_fixed0 c w : fts (c_spec c) = false -> fixed_of c w = fixed0 c.
 Proof. intros H. unfold fixed_of, fixed0, fixed_name_part. rewrite H. reflexivity. Qed.
 
 Lemma cleanup_impl_unfold c w k flt n m : klim k = Some (n, m) -> quiet w ->
-  cleanup_impl c w k flt false =
+  cleanup_impl c w k flt None =
   match list_log_gz (woff w) (c_spec c) (fixed_of c w) (wfs w) flt with
   | None => (Panic, w)
   | Some files =>
     let '(ok0, w1', files') := remove_redundant w (redundant_gz files) files in
     if negb ok0 then (Err, w1') else
-    let '(ok, w2) := cleanup_loop w1' files' 0 n (n + m) in ((if ok then Ok tt else Err), w2)
+    let '(ok, w2) := cleanup_loop w1' files' 0 n (n + m) None in ((if ok then Ok tt else Err), w2)
   end.
 Proof.
   intros H Q. destruct k; cbn [klim] in H; try discriminate; injection H as <- <-;
@@ -158,7 +161,7 @@ Theorem cleanup_numbers c w k n m closed lo mid :
   fts (c_spec c) = false -> sfx_ok (c_spec c) ->
   klim k = Some (n, m) ->
   quiet w -> fs_wf (wfs w) -> kdir c (wfs w) closed lo mid ->
-  exists w', cleanup_impl c w k IFNum false = (Ok tt, w') /\ same_env w w' /\ fs_wf (wfs w')
+  exists w', cleanup_impl c w k IFNum None = (Ok tt, w') /\ same_env w w' /\ fs_wf (wfs w')
     /\ kdir c (wfs w') closed (Nat.max lo (length closed - (n + m))) (Nat.max mid (length closed - n))
     /\ same_at (wfs w) (wfs w') (cname c).
 Proof.
@@ -205,7 +208,7 @@ Proof.
              /\ (n <= L - 1 - i < n + m -> ext_is (entry c mid i) gz_sfx = false -> archived f f' (entry c mid i))).
   { intros i Hi. apply (O (L - 1 - i)). apply listing_nth_of; assumption. }
   assert (NDf' : nodup_names f').
-  { unfold f'. replace w' with (snd (cleanup_loop w files 0 n (n + m))) by (rewrite E; reflexivity).
+  { unfold f'. replace w' with (snd (cleanup_loop w files 0 n (n + m) None)) by (rewrite E; reflexivity).
     apply cleanup_loop_nd. exact Hnd. }
   (* the names that the loop creates *)
   set (made := map gz_name (filter not_gz (zone_part n (n + m) files))).
